@@ -323,6 +323,52 @@ var Corpus = []Scenario{
 		x.do(Action{Op: "DeleteSetting", Key: Key, V: "s1"})
 		x.D.Converge(20)
 	}},
+	{"kubectl-canary-commands", []string{"C19", "C08", "C05", "C07", "C14"}, func(x Scn) {
+		cmd := func(v string) { x.do(Action{Op: "Cmd", Key: Key, V: v}) }
+		x.Setup(3, "A", CanaryStrategy("1"))
+		// no canary yet: canary commands must refuse, rolling-update pause / freeze act
+		for _, v := range []string{"canary-pause", "canary-unpause", "canary-validate", "canary-fail", "ru-unpause", "ru-pause", "ru-pause", "ru-unpause", "freeze", "freeze", "unfreeze", "unfreeze"} {
+			cmd(v)
+		}
+		x.Template("B")
+		x.AwaitCanaryPods(8)
+		for _, v := range []string{"ru-pause", "freeze", "canary-pause", "canary-pause"} {
+			cmd(v)
+		}
+		x.Rounds(2)
+		cmd("canary-unpause")
+		cmd("canary-unpause")
+		x.Rounds(2)
+		cmd("canary-validate")
+		cmd("canary-validate")
+		// a later template change must not be promoted by the old validation
+		x.Template("C")
+		x.Rounds(3)
+		cmd("canary-validate")
+		x.D.Converge(40)
+		x.Template("A")
+		x.AwaitCanaryPods(8)
+		cmd("canary-fail")
+		x.Rounds(1)
+		cmd("canary-fail")
+		x.D.Converge(40)
+	}},
+	{"kubectl-pause-then-fail", []string{"C19", "C07", "C08"}, func(x Scn) {
+		cmd := func(v string) { x.do(Action{Op: "Cmd", Key: Key, V: v}) }
+		sc := CanaryStrategy("2")
+		sc.CMode, sc.CDuration, sc.CNoRestarts = "manual", 0, -1
+		x.Setup(4, "A", sc)
+		x.Template("B")
+		x.AwaitCanaryPods(8)
+		cmd("canary-pause")
+		x.Rounds(2)
+		cmd("canary-fail")
+		x.D.Converge(40)
+		x.Template("B")
+		x.AwaitCanaryPods(8)
+		cmd("canary-validate")
+		x.D.Converge(40)
+	}},
 	{"migration-old-daemonset", []string{"C03", "C12", "C02"}, func(x Scn) {
 		sc := BaseStrategy()
 		x.D.Strategy[Key] = sc
@@ -371,6 +417,7 @@ func WalkVariants(i int) (WalkConfig, StrategyConfig, int) {
 		sc = CanaryStrategy("1")
 		sc.CMode, sc.CDuration, sc.CNoRestarts = "manual", 0, -1
 	}
+	wc.Commands = i%2 == 0
 	return wc, sc, n
 }
 
